@@ -61,12 +61,12 @@ static void janet_mark_buffer_c(JanetBuffer *buffer) P_RECORD(g_buf, g_buf_seen,
 static void janet_mark_fiber_c(JanetFiber *fiber) P_RECORD(g_fib, g_fib_seen, g_fib_calls, fiber);
 
 /* ---- janet_mark(Janet): was it called for the ghost-selected VALUE (bit-for-bit the same Janet) -------------- */
-#ifdef JANET_NANBOX_64
+#if defined(JANET_NANBOX_64) || defined(JANET_NANBOX_32)
 #define JEQ(a, b) ((a).u64 == (b).u64)
-#elif defined(JANET_NANBOX_32)
-#define JEQ(a, b) ((a).u64 == (b).u64)
+#define JCOPY(dst, src) ((dst).u64 = (src).u64)     /* the bit pattern, through the member JEQ compares */
 #else
 #define JEQ(a, b) ((a).type == (b).type && (a).as.u64 == (b).as.u64)
+#define JCOPY(dst, src) ((dst).type = (src).type, (dst).as.u64 = (src).as.u64)
 #endif
 Janet g_val; int g_val_seen; unsigned g_val_calls;
 void janet_mark_c(Janet x)
